@@ -420,6 +420,29 @@ def register_op(sess, ctx, functions, oi):
         sess.reg_ops[oi] = op
         sess.reg_id[oi] = sess.reg_counter
         sess.reg_counter += 1
+    elif k == "retarget":
+        m = world.module
+        a = next(iter(m.symbols_named(op["a"])), None)
+        b = next(iter(m.symbols_named(op["b"])), None)
+        if a is None or b is None:
+            raise core.Rejected("retarget of an unknown symbol")
+        ctx.retarget_symbol_uses(a, b)
+        sess.retargets.append((op["a"], op["b"]))
+        if sess.armed == "C18":
+            # invalid requests are refused with an error (and change nothing)
+            foreign = gtirb.Symbol("foreign_symbol")
+            probes = (
+                ("foreign-old", lambda: ctx.retarget_symbol_uses(foreign, b)),
+                ("foreign-new", lambda: ctx.retarget_symbol_uses(b if b is not a else a, foreign)),
+                ("twice", lambda: ctx.retarget_symbol_uses(a, b)),
+            )
+            for what, call in probes:
+                try:
+                    call()
+                except ValueError:
+                    sess.fired["refusal." + what] += 1
+                else:
+                    raise core.Violation("C18", "invalid-accepted", {"request": what}, {"request": what})
     elif k == "insfn":
         p = sess.patches[oi] = SimPatch(sess, oi, op["patch"])
         sym = ctx.register_insert_function(op["name"], p)
@@ -657,6 +680,7 @@ def run_session(world, model, sdesc, armed, index, logger=None, gen_cb=None, che
     ops = sdesc["ops"]
     order = sdesc.get("reg_order") or list(range(len(ops)))
     sess.resolved = {}
+    sess.retargets = []
     sess.insfn = []
     sess.expanded = {}
     sess.patches = {}
@@ -808,6 +832,17 @@ def apply_to_model(sess):
             if not sec["data"]:
                 continue
             model.add_unit(name, tokens_from_section(world.isa, sec, f"s{sess.index}o{oi}x{name}", md), name=f"n{sess.index}o{oi}i{c['inv']}{name}")
+    apply_retargets(sess)
+
+
+def apply_retargets(sess):
+    from . import oracles
+
+    if sess.retargets:
+        # whether a label that slid onto a block deleted with
+        # retarget_to_proxy became external is decided by the implementation
+        oracles._reconcile_proxies(sess.world, sess.model)
+        sess.model.retarget(sess.retargets, lambda t, attrs, ai, bi: oracles.convert_attrs(sess.world.desc, t, attrs, ai, bi))
 
 
 def _unit_rank(model, sp):
